@@ -30,6 +30,8 @@ pub struct TB {
     pub lead_fields: usize,
     pub impl_fns: Vec<Function>,
     pub attrs: Vec<Attribute>,
+    /// further named fields, written after the pointer-sized ones
+    pub extra_fields: Vec<(String, Type)>,
 }
 
 impl TB {
@@ -44,6 +46,7 @@ impl TB {
             lead_fields: 0,
             impl_fns: vec![],
             attrs: vec![],
+            extra_fields: vec![],
         }
     }
     pub fn add_to(&self, m: &mut Module) {
@@ -63,6 +66,9 @@ impl TB {
         }
         for k in 0..self.nfields {
             statements.push(TypeStatement::field((Visibility::Public, format!("w{k}").as_str()), word()));
+        }
+        for (n, t) in &self.extra_fields {
+            statements.push(TypeStatement::field((Visibility::Public, n.as_str()), t.clone()));
         }
         m.definitions.push(ItemDefinition::new(
             (if self.public { Visibility::Public } else { Visibility::Private }, self.name.as_str()),
@@ -98,9 +104,13 @@ pub fn func(rng: &mut Rng, name: &str, receiver: Option<Option<bool>>, public_in
     // now and then the parameters carry names that generated wrappers use for their own
     // locals and parameters (`f`, `_f`, `this`)
     let odd_names = rng.chance(1, 5);
-    let mut pool: Vec<&str> = vec!["f", "_f", "this", "__f", "ptr", "r#type"];
+    // taken in this order, so that `f` comes with `_f` (the name a wrapper falls back to)
+    let mut pool: Vec<&str> = vec!["f", "_f", "__f", "this", "ptr", "r#type"];
+    if rng.chance(1, 3) {
+        pool.rotate_left(3);
+    }
     for k in 0..rng.below(max_args + 1) {
-        let name = if odd_names && !pool.is_empty() { pool.remove(rng.below(pool.len())).to_string() } else { format!("a{k}") };
+        let name = if odd_names && !pool.is_empty() { pool.remove(0).to_string() } else { format!("a{k}") };
         args.push(Argument::Named(Ident(name), arg_type(rng)));
     }
     let mut f = Function::new((if public { Visibility::Public } else { Visibility::Private }, name), args);
@@ -342,6 +352,60 @@ pub fn c06_shapes(first_id: usize) -> Vec<Case> {
             }
         }
     }
+    out.extend(c06_later_base_shapes(first_id + out.len()));
+    out
+}
+
+/// The FIRST base decides, even when it is empty, zero-sized or merely lacks a vftable while a
+/// later base has one: the derived type then has no base-supplied table; with a block of its
+/// own (even one that repeats the later base's functions) it gets its own pointer at offset 0.
+pub fn c06_later_base_shapes(first_id: usize) -> Vec<Case> {
+    let mut out = vec![];
+    for ptrw in [8usize, 4] {
+        for first_kind in 0..3usize {
+            for block in 0..4usize {
+                for third in [false, true] {
+                    let id = format!("k{}_", first_id + out.len());
+                    let mut m = Module::new();
+                    // first base: empty type / zero-sized (zero-length array) / plain fields, no vftable
+                    let mut first = TB::new("First");
+                    match first_kind {
+                        0 => first.nfields = 0,
+                        1 => {
+                            first.nfields = 0;
+                            first.extra_fields.push(("none".into(), Type::ident("u8").const_pointer().array(0)));
+                        }
+                        _ => first.nfields = 2,
+                    }
+                    first.add_to(&mut m);
+                    let mut later = TB::new("Later");
+                    later.vft = Some(vec![vf("l_v0", false), vf("l_v1", true)]);
+                    later.nfields = 1;
+                    later.add_to(&mut m);
+                    let mut d = TB::new("D");
+                    d.bases = vec![("first".into(), "First".into()), ("later".into(), "Later".into())];
+                    if third {
+                        d.bases.push(("later2".into(), "Later".into()));
+                    }
+                    d.vft = match block {
+                        0 => None,
+                        // repeats the later base's functions, then its own
+                        1 => Some(vec![vf("l_v0", false), vf("l_v1", true), vf("d_v", false)]),
+                        // exactly the later base's functions
+                        2 => Some(vec![vf("l_v0", false), vf("l_v1", true)]),
+                        _ => Some(vec![vf("d_only", true)]),
+                    };
+                    d.nfields = 1;
+                    d.add_to(&mut m);
+                    // one more level on top
+                    let mut dd = TB::new("DD");
+                    dd.bases = vec![("base".into(), "D".into())];
+                    dd.add_to(&mut m);
+                    out.push((id.clone(), vec![(ItemPath::from(format!("{id}s").as_str()), m)], ptrw));
+                }
+            }
+        }
+    }
     out
 }
 
@@ -417,6 +481,15 @@ pub fn c06_mutants(ptrw: usize) -> Vec<(&'static str, Vec<(ItemPath, Module)>, u
                 let mut v = good.clone();
                 v[slot].arguments[0] = if v[slot].arguments[0] == Argument::ConstSelf { Argument::MutSelf } else { Argument::ConstSelf };
                 out.push(("mutant/receiver", mk(family, Some(v), depth, false), ptrw));
+                // no receiver, but a first parameter spelt like the one a receiver turns into
+                let mut v = good.clone();
+                let mutable = v[slot].arguments[0] == Argument::MutSelf;
+                let this_ty = if mutable { Type::ident("D").mut_pointer() } else { Type::ident("D").const_pointer() };
+                v[slot].arguments[0] = Argument::named("this", this_ty);
+                v[slot].attributes.0.retain(|a| a.function().map(|(i, _)| i.as_str() != "calling_convention").unwrap_or(true));
+                let cur = crate::refmodel::attr_str(&good[slot].attributes, "calling_convention");
+                v[slot].attributes.0.push(Attribute::calling_convention(cur.as_deref().unwrap_or("thiscall")));
+                out.push(("mutant/receiver-replaced-by-this-parameter", mk(family, Some(v), depth, false), ptrw));
                 let mut v = good.clone();
                 match &v[slot].return_type {
                     Some(_) => v[slot].return_type = None,
